@@ -34,6 +34,9 @@ def is_immutable_value(prog, mod: Module, e: Optional[ast.expr]) -> bool:
         return True
     if isinstance(e, ast.JoinedStr):
         return True
+    if isinstance(e, ast.Lambda):
+        # a function object; closed over nothing at module level (default values would be evaluated once and shared)
+        return not e.args.defaults and not any(d is not None for d in e.args.kw_defaults)
     if isinstance(e, ast.Tuple):
         return all(is_immutable_value(prog, mod, x) for x in e.elts)
     if isinstance(e, ast.UnaryOp):
@@ -120,6 +123,11 @@ READONLY_METHODS = {'get', 'keys', 'values', 'items', 'index', 'count', 'copy', 
                     'issubset', 'issuperset', 'isdisjoint', '__contains__', '__getitem__', '__len__', '__iter__'}
 
 
+# builtins that read their argument and build something new from it (a copy, a number, a truth value)
+_READING_BUILTINS = ('len', 'sorted', 'iter', 'any', 'all', 'set', 'frozenset', 'list', 'tuple', 'dict', 'min', 'max', 'sum', 'enumerate',
+                     'zip', 'reversed', 'bool', 'str', 'repr')
+
+
 def _param_only_read(prog, mod: Module, call: ast.Call, idx: int, depth: int = 0) -> bool:
     """The callee is a package function and its parameter number `idx` is only read (looked up, iterated, tested)."""
     sym = prog.resolve_expr_symbol(mod, call.func) if isinstance(call.func, (ast.Name, ast.Attribute)) else None
@@ -143,7 +151,7 @@ def _param_only_read(prog, mod: Module, call: ast.Call, idx: int, depth: int = 0
             continue
         if isinstance(par, (ast.For, ast.comprehension)) and par.iter is node:
             continue
-        if isinstance(par, ast.Call) and isinstance(par.func, ast.Name) and par.func.id in ('len', 'sorted', 'iter', 'any', 'all', 'isinstance') \
+        if isinstance(par, ast.Call) and isinstance(par.func, ast.Name) and (par.func.id in _READING_BUILTINS or par.func.id == 'isinstance') \
                 and node in par.args:
             continue
         if isinstance(par, ast.Attribute) and par.value is node and par.attr in READONLY_METHODS and isinstance(prog.parent(par), ast.Call):
@@ -239,8 +247,8 @@ def readonly_table(prog, mod: Module, stmt: ast.stmt) -> Optional[str]:
                 continue
             if isinstance(par, (ast.For, ast.comprehension)) and par.iter is node:
                 continue
-            if isinstance(par, ast.Call) and isinstance(par.func, ast.Name) and par.func.id in ('len', 'sorted', 'iter', 'any', 'all') \
-                    and node in par.args:
+            if isinstance(par, ast.Call) and isinstance(par.func, ast.Name) and par.func.id in _READING_BUILTINS \
+                    and node in par.args and prog.resolve_name(m, par.func.id) is None:
                 continue
             if isinstance(par, ast.Attribute) and par.value is node and par.attr in READONLY_METHODS and \
                     isinstance(prog.parent(par), ast.Call):
@@ -1532,6 +1540,30 @@ def dzn_elements_by_interpretation(ctx):
             if not is_a(exc, adv):
                 out['C03.total'].append(f'{label}, requires port e left without semantics: ' +
                                         ('the build goes on' if exc is None else f'fails with {exc.split(".")[-1]}, not AdvShellError'))
+
+        # ---- A2: a port whose type does not denote exactly one interface - whatever kind of port it is ----------------------------
+        ferr = prog.classes.get('dznpy.ast_view.FindError')
+        for pkind, (pdir, pinj) in (('provides', ('PROVIDES', False)), ('requires', ('REQUIRES', False)), ('injected requires', ('REQUIRES', True))):
+            for tlabel, tname in (('is declared nowhere', 'INope'), ('denotes two interfaces on the scope chain (My.IDup and IDup)', 'IDup'),
+                                  ('denotes an enum', 'Result')):
+                w = World()
+                plain, _t = w.interface('IPlain', [w.event('Poke', 'void')])
+                dup1, _t1 = w.interface('IDup', [w.event('Poke', 'void')])
+                dup2 = w.mk(A['Interface'], fqn=w.ids('IDup'), parent_ns=w.root, ns_trail=w.mk(ntree, parent=w.root, scope_name=w.ids('IDup')),
+                            name=w.sn('IDup'), types=w.mk(A['Types'], elements=[]), events=w.mk(A['Events'], elements=[w.event('Poke', 'void')]))
+                enum_ = w.mk(A['Enum'], fqn=w.ids('My', 'Result'), parent_ns=w.my, name=w.sn('Result'), fields=w.mk(A['Fields'], elements=['Ok']))
+                ports = [w.port('a', 'IPlain', 'PROVIDES'), w.port('x', tname, pdir, pinj), w.port('b', 'IPlain', 'REQUIRES')]
+                comp = w.mk(A['Component'], fqn=w.ids('My', 'Comp'), parent_ns=w.my, name=w.sn('Comp'), ports=w.mk(A['Ports'], elements=ports))
+                fct = w.mk(A['FileContents'])
+                fct.fields['interfaces'] = [plain, dup1, dup2]
+                fct.fields['enums'] = [enum_]
+                fct.fields['components'] = [comp]
+                _res, exc = w.run(w.config(fct, w.sem('NONE', 'ALL'), w.sem('NONE', 'ALL')), fct, comp)
+                lib_err = exc is not None and (is_a(exc, adv) or (ferr is not None and (exc == ferr.fq or is_a(exc, ferr))))
+                if not lib_err:
+                    out['C13.rejects'].append(f'a model with a {pkind} port whose type {tlabel} ' +
+                                              ('is accepted: the build returns files for an invalid model' if exc is None else
+                                               f'fails with {exc.split(".")[-1]}, not with a lookup error of the library'))
 
         # ---- B: the multi-client configuration ---------------------------------------------------------------------------------
         def world_b():
